@@ -162,9 +162,10 @@ def run(ctx):
     if ctx.want("R6"):
         rs = ctx.rule("R6", "tracking solver: after a call the back-end refused (an assertion, a push) every later call, the assertion list, the recorded last command / result and both stacks are as when the refused call is never made")
         from . import solver_deep as sd
-        for seq, kind, got, want in sd.its_failure_results(repo, ctx.tier):
-            tag = " ; ".join(sd.ITS_F_NAMES[x] for x in seq)
-            key = "tracking-solver|%s" % ",".join(seq)
+        for r_ in sd.its_failure_results(repo, ctx.tier):
+            seq, kind, got, want = r_[:4]
+            tag = " ; ".join(sd.ITS_F_NAMES[x] for x in seq) + ((" [solver options: %s]" % r_[4]) if len(r_) > 4 else "")
+            key = "tracking-solver|%s%s" % (",".join(seq), ("|" + r_[4]) if len(r_) > 4 else "")
             if kind != "ok":
                 rs.unrec("%s: %s" % (tag, str(got)[:160]))
                 continue
